@@ -42,6 +42,15 @@
 // punctuation, HTAB, surrounding spaces) on every framing class and in the pipelines. nbhttp keeps
 // the first word of a reason-phrase (recorded design): the first word is compared.
 //
+// Configured limits: Engine.MaxHTTPBodySize is a dimension of the agreement (added after a seeded
+// change that turned the admission check of BodyReader.append into ">=" was missed: only the
+// default, unlimited configuration was run). Every body-carrying form (Content-Length and
+// chunked, 1-3 chunks, below and above 1 KiB, without and with trailers) alone and in all
+// ordered pairs / triples is run with the limit at exactly the largest body of the stream and
+// at one above; the result must equal the reference and the stream's own result without a
+// limit (signatures end in "max-body=exactly-the-largest-body" / "max-body=largest-body+1").
+// What happens above a limit, and Engine.ReadLimit, are C08's subject.
+//
 // The per-case allocator is httpgen's lite allocator (same isolation as verif/track: fresh per
 // case, no recycling, freed memory poisoned; no call-site attribution, which cost 80 % of the CPU
 // time): ownership violations are C11's business and only counted here.
